@@ -4,3 +4,4 @@ pub mod c14;
 pub mod c17;
 pub mod c10;
 pub mod c12;
+pub mod c03;
